@@ -11,7 +11,7 @@ from __future__ import annotations
 
 from typing import Any, Dict, List, Optional, Tuple
 
-from ..core import Ctx, Report, Violation, mix32
+from ..core import Ctx, HarnessError, Report, Violation, mix32
 from .. import gen_enc as G
 
 PROPERTY = "C02"
@@ -234,7 +234,49 @@ def _sched_task(t: Tuple[str, str, int, int]) -> Report:
     return rep
 
 
+# ---------------------------------------------------------------------------------------------- covfuzz phase
+# Coverage-guided driver (vp_harness/covfuzz.py).  C02 has no Hypothesis phase of its own; the strategy below draws
+# from the domain the enumeration already covers -- a 7..8-byte buffer (head + 5 tail bytes, exactly the buffer
+# lengths _shard builds) at a boundary or arbitrary 20-bit address -- and feeds the SAME check_one.
+COVFUZZ = True
+COVFUZZ_INSTRUMENT = ["sc62015.pysc62015.instr"]
+COVFUZZ_PREIMPORT = ["sc62015.arch", "sc62015.pysc62015.emulator", "binja_test_mocks.mock_llil",
+                     "binja_test_mocks.eval_llil"]
+
+
+def covfuzz_test(target: str, rep: Report, extra: Dict[str, Any]) -> Any:
+    import hypothesis
+    from hypothesis import given, settings, strategies as st, HealthCheck
+    from .c01 import _preload
+
+    _preload()
+    if target != "rt":
+        raise HarnessError(f"unknown covfuzz target {target!r}")
+
+    @settings(max_examples=1, deadline=None, database=None, report_multiple_bugs=False,
+              suppress_health_check=list(HealthCheck), phases=[hypothesis.Phase.generate])
+    @given(st.binary(min_size=7, max_size=8), st.one_of(st.sampled_from(ADDRS), st.integers(0, 0xFFFFF)))
+    def prop(data: bytes, addr: int) -> None:
+        check_one(data, addr, rep, "covfuzz")
+
+    return prop
+
+
+def _covfuzz_phase(ctx: Ctx) -> Report:
+    from .. import covfuzz as CF
+
+    return CF.cov_fuzz_many("vp_harness.props.c02", "rt", [ctx.shard_seed(3000 + i) for i in range(16)],
+                            ctx.pick(500, 9000), max_len=64, instrument=COVFUZZ_INSTRUMENT,
+                            preimport=COVFUZZ_PREIMPORT, extra={}, budget_s=ctx.pick(20.0, 120.0), pad_len=256)
+
+
 def run(ctx: Ctx) -> Report:
+    from .. import covfuzz as CF
+
+    if CF.only_phase() == "covfuzz":
+        rep = _covfuzz_phase(ctx)
+        rep.rule = RULE
+        return rep
     nshards = 64
     reports = ctx.pmap(_shard, [(i, nshards, ctx.seed, ctx.tier) for i in range(nshards)])
     reports += ctx.pmap(_landmark_shard, [(i, 32, ctx.seed, ctx.tier) for i in range(32)])
@@ -242,6 +284,8 @@ def run(ctx: Ctx) -> Report:
     reports += ctx.pmap(_sched_task, [(PROPERTY, k, ctx.shard_seed(400 + 10 * j + i), n // 8)
                                       for j, (k, n) in enumerate((("stream", n_st), ("preempt", n_pe), ("after-reject", ctx.pick(4000, 40000)))) for i in range(8)])
     rep = ctx.merge_reports(reports)
+    if COVFUZZ:
+        CF.merge_covfuzz(rep, _covfuzz_phase(ctx))
     rep.rule = RULE
     rep.exhaustive = ctx.tier == "thorough"
     rep.extra["structural_heads_total"] = len(G.PRES) * 65536
@@ -249,6 +293,8 @@ def run(ctx: Ctx) -> Report:
         "domain = byte strings the info callback accepts (unfused PRE / invalid mode bytes are outside the quantifier)",
         "IL equality is structural equality of the mock LLIL node reprs",
     ]
+    if COVFUZZ:
+        rep.assumptions.append(CF.ASSUMPTION)
     return rep
 
 
